@@ -189,7 +189,7 @@ def check_C17(ctx):
     tlc_mc(ctx, 'KevoTxn', 'MC_Txn.cfg', timeout=900)
     tlc_mc(ctx, 'KevoTxn', 'MC_TxnLive.cfg', timeout=900)
     # (1) registry scenarios; the begin time-out path is a coin flip per occurrence on defective code: several instances in parallel
-    scen = ['idle', 'conn', 'shutdown'] + ['timeout-rw'] * 4 + ['timeout-ro'] * 4 + ['deadline-rw', 'deadline-ro', 'cancel-rw', 'cancel-ro'] * 2
+    scen = ['idle', 'conn', 'shutdown', 'idle-ro', 'conn-ro', 'shutdown-ro'] + ['timeout-rw'] * 4 + ['timeout-ro'] * 4 + ['deadline-rw', 'deadline-ro', 'cancel-rw', 'cancel-ro'] * 2
     if not ctx.quick():
         scen += ['ttl'] + ['timeout-rw'] * 8 + ['timeout-ro'] * 8
     jobs = [(['txn-registry', '-scenario', s], {}, f'reg-{s}-{i}') for i, s in enumerate(scen)]
